@@ -137,6 +137,16 @@ WriteNegative(n) ==
     /\ outcome' = "refused"
     /\ UNCHANGED <<bits, layout, stage, rpos, ridx, reads>>
 
+(* a signed value whose magnitude does not fit n-1 bits is refused; the specification says
+   nothing about the stream afterwards (the sign bit may already have been appended), so
+   the behaviour ends here *)
+WriteIntTooBig(n, sign, c) ==
+    /\ stage = "fields" /\ "refuse" \in Kinds /\ n >= 2 /\ c \in {2, 3, 4}
+    /\ ops' = Append(ops, Op("write_int_overflow", "f", n, <<sign>> \o ClassPattern(c, n), Len(bits)))
+    /\ outcome' = "refused"
+    /\ stage' = "done"
+    /\ UNCHANGED <<bits, layout, rpos, ridx, reads>>
+
 EndFields ==
     /\ stage = "fields"
     /\ stage' = "sentinel"
@@ -196,6 +206,7 @@ FieldStep ==
     \/ \E n \in {1, 8, 13} : Skip(n)
     \/ \E i \in 1..Len(layout) : \E v \in ClassPatterns(IF layout[i].typ = "uint" THEN layout[i].n ELSE 1) : SetUint(i, v)
     \/ \E n \in Widths : WriteTooBig(n) \/ WriteNegative(n)
+    \/ \E n \in Widths, sign \in Bit, c \in {2, 3, 4} : WriteIntTooBig(n, sign, c)
 
 Next ==
     \/ \E k \in LeadIns : WriteLead(k)
@@ -225,13 +236,13 @@ ReadReturnsWritten ==
         /\ reads[i].v = layout[i].v /\ reads[i].typ = layout[i].typ /\ reads[i].n = layout[i].n
 
 (* ... and leaves reader and writer at the same position *)
-CursorsAgree == stage \in {"past", "done"} => rpos = Len(bits)
+CursorsAgree == (stage \in {"past", "done"} /\ outcome # "refused") => rpos = Len(bits)
 
 MissingOnlyAboveOneBit ==
     \A i \in 1..Len(reads) :
         reads[i].missing <=> (reads[i].typ = "uint" /\ reads[i].n > 1 /\ IsAllOnes(reads[i].v) /\ reads[i].v # <<>>)
 
-OctetAlignedWhenRead == stage \in {"read", "past", "done"} => Len(bits) % 8 = 0
+OctetAlignedWhenRead == (stage \in {"read", "past", "done"} /\ outcome # "refused") => Len(bits) % 8 = 0
 
 (* action property: an in-place overwrite changes exactly its own bits *)
 IsSet == Len(ops') = Len(ops) + 1 /\ ops'[Len(ops')].op = "set_uint"
@@ -245,7 +256,7 @@ IsRefusal == Len(ops') = Len(ops) + 1 /\ ops'[Len(ops')].op \in {"write_uint_ove
 RefusedWritesNothing ==
     [][IsRefusal => (bits' = bits /\ layout' = layout /\ outcome' = "refused")]_vars
 
-PastEndIsError == stage = "done" => outcome = "BitReadError"
+PastEndIsError == stage = "done" => outcome \in {"BitReadError", "refused"}
 
 (* emission of complete behaviours for the conformance driver *)
 Emit == stage = "done" =>
